@@ -900,4 +900,94 @@ message Fielded {
 }
 `},
 	},
+	{
+		// Packages whose files are split between target files and import files (what a workspace
+		// module sharing a package with a dependency module, or --path inside a package, produces).
+		// FilterImage documents ErrImageFilterTypeIsImport for an included package only when ALL of
+		// its files are imports. Compositions, in image order: common = import, TARGET, import;
+		// mix = TARGET, import (an import file that imports a target file); mix.sub and deponly =
+		// imports only (mix.sub below a mixed package); app, other = targets only. The import halves
+		// carry content that nothing references (UnusedInDep) and content the target half needs.
+		Name:    "split-packages",
+		Covers:  []string{"package split between target and import files (import first / target first / import on both sides)", "import-only sub-package of a split package", "import file that imports a target file"},
+		Targets: []string{"common/money.proto", "mix/base.proto", "app/app.proto", "other/other.proto"},
+		Files: map[string]string{
+			"common/unit.proto": `syntax = "proto3";
+package common;
+// L:common.Unit
+message Unit {
+  // L:common.Unit.code
+  string code = 1;
+}
+// L:common.UnusedInDep
+message UnusedInDep {}
+`,
+			"common/money.proto": `syntax = "proto3";
+package common;
+import "common/unit.proto";
+import "deponly/deponly.proto";
+// L:common.Money
+message Money {
+  // L:common.Money.unit
+  Unit unit = 1;
+  // L:common.Money.amount
+  int64 amount = 2;
+  // L:common.Money.dep_only
+  deponly.DepOnly dep_only = 3;
+}
+`,
+			"common/zone.proto": `syntax = "proto3";
+package common;
+import "common/money.proto";
+// L:common.Zone
+message Zone {
+  // L:common.Zone.m
+  Money m = 1;
+}
+`,
+			"deponly/deponly.proto": `syntax = "proto3";
+package deponly;
+// L:deponly.DepOnly
+message DepOnly {}
+`,
+			"mix/base.proto": `syntax = "proto3";
+package mix;
+// L:mix.Base
+message Base {}
+`,
+			"mix/mid.proto": `syntax = "proto3";
+package mix;
+import "mix/base.proto";
+// L:mix.Mid
+message Mid {
+  // L:mix.Mid.b
+  Base b = 1;
+}
+`,
+			"mix/sub/leaf.proto": `syntax = "proto3";
+package mix.sub;
+// L:mix.sub.Leaf
+message Leaf {}
+`,
+			"app/app.proto": `syntax = "proto3";
+package app;
+import "mix/mid.proto";
+import "mix/sub/leaf.proto";
+import "common/zone.proto";
+// L:app.App
+message App {
+  // L:app.App.m
+  mix.Mid m = 1;
+  // L:app.App.l
+  mix.sub.Leaf l = 2;
+  // L:app.App.z
+  common.Zone z = 3;
+}
+`,
+			"other/other.proto": `syntax = "proto3";
+package other;
+// L:other.Other
+message Other {}
+`},
+	},
 }
